@@ -75,6 +75,15 @@ fn exec(n: usize, vars: &BddVariableSet, pool: &[Bdd], op: &str) -> Option<Bdd> 
         "expr" => vars.eval_expression(&p(1).to_boolean_expression(vars)),
         "exprtext" => vars.eval_expression_string(&p(1).to_boolean_expression(vars).to_string()),
         "transfer" => vars.transfer_from(p(1), vars).unwrap(),
+        // transferp:<i>:<p0.p1.…>: transfer into a variable set that declares the same names in the permuted order
+        // x_{p0}, x_{p1}, …; a refusal (None) is the outcome `panic`; an accepted result joins the pool (it must be
+        // canonical like everything else)
+        "transferp" => {
+            let names: Vec<String> = parse_vars(f[2]).iter().map(|v| format!("x_{}", v.to_index())).collect();
+            let refs: Vec<&str> = names.iter().map(|x| x.as_str()).collect();
+            let target = BddVariableSet::new(&refs);
+            target.transfer_from(p(1), vars).unwrap()
+        }
         "renamevar" => { let mut b = p(1).clone(); unsafe { b.rename_variable(var(f[2].parse().unwrap()), var(f[3].parse().unwrap())); } b }
         "mkvar" => vars.mk_var(var(f[1].parse().unwrap())),
         "mknotvar" => vars.mk_not_var(var(f[1].parse().unwrap())),
@@ -158,7 +167,20 @@ fn rand_table3(rng: &mut Rng64) -> String { let c = rng.below(256) as u32; rando
 fn rand_op(rng: &mut Rng64, n: usize, m: usize) -> String {
     let i = rng.below(m as u64); let j = rng.below(m as u64); let k = rng.below(m as u64);
     let x = if n == 0 { 0 } else { rng.below(n as u64) };
-    match rng.below(if n == 0 { 20 } else { 52 }) {
+    match rng.below(if n == 0 { 20 } else { 54 }) {
+        52 | 53 => {
+            // a permutation of the variables: mostly one adjacent transposition (first, middle or LAST pair), sometimes random
+            let mut perm: Vec<usize> = (0..n).collect();
+            if n >= 2 {
+                match rng.below(4) {
+                    0 => perm.swap(n - 2, n - 1),
+                    1 => perm.swap(0, 1),
+                    2 => { let a = rng.below(n as u64 - 1) as usize; perm.swap(a, a + 1); }
+                    _ => { for a in (1..n).rev() { let b = rng.below(a as u64 + 1) as usize; perm.swap(a, b); } }
+                }
+            }
+            format!("transferp:{}:{}", i, perm.iter().map(|v| v.to_string()).collect::<Vec<_>>().join("."))
+        }
         0 => format!("not:{}", i),
         1 => format!("and:{}:{}", i, j),
         2 => format!("or:{}:{}", i, j),
@@ -224,6 +246,7 @@ pub fn gen(tier: Tier, rng: &mut Rng64, out: &mut Out) {
         let ops = [s("not:0"), s("dnf:0"), s("optdnf:0"), s("cnf:0"), s("text:0"), s("bytes:0"), s("expr:0"), s("exprtext:0"),
                    s("varrestrict:0:0:1"), s("varrestrict:0:1:0"), s("varrestrict:0:2:1"), s("restrict:0:0=1.2=0"),
                    s("exists:0:1"), s("forall:0:0.2"), s("pick:0:2.0"), s("varpick:0:1"), s("substitute:0:1:0"), s("transfer:0"),
+                   s("transferp:0:0.1.2"), s("transferp:0:0.2.1"), s("transferp:0:1.0.2"), s("transferp:0:1.2.0"), s("transferp:0:2.0.1"), s("transferp:0:2.1.0"),
                    s("ncand:0:7"), s("and:0:0"), s("ite:0:0:0")];
         run("C02.prog", &[s("3"), b, ops.join(";")], out);
     }
